@@ -15,6 +15,8 @@ func init() { register("C08", checkC08) }
 
 func checkC08(c *Ctx) {
 	r := c.R
+	r.Rule("R02.7", "(shared with C02) delivered = admitted: the sink issues no record of its own when every destination reported success")
+	r.Rule("R03.3", "(shared with C03) delivered = admitted: each add / set / remove operation of the writer set edits its own lists only, a destination is entered once")
 	r.Rule("R15.4", "(shared with C15) no shared mutable state between handlers: derived log/slog handlers own a fresh field list and deriving one edits no attribute object")
 	r.Rule("R03.1", "(shared with C03) no admitted record is lost: the routing decision function equals the documented one (an emptied per-level list does not hide the class writers)")
 	r.Rule("R10.1", "(shared with C10) no shared mutable configuration between loggers: a child never shares its parent's writer set or per-level map")
@@ -48,6 +50,9 @@ func checkC08(c *Ctx) {
 		c09Pooled(c, p, m, "R08.5", feasibleModes)
 		c09Globals(c, p, m)
 		c13Fanout(c, p, m)
+		noDiagnosticOnSuccess(c, p, m)
+		c03AddRemove(c, p, m)
+		c03Frames(c, p, m)
 		lockDiscipline(c, p, "R08.7")
 		c13Reaction(c, p, m)
 		c15Derived(c, p, m)
